@@ -745,7 +745,11 @@ func matchFindingByID(fs []Finding, id string) *Finding {
 
 // saveReplay writes the violating case (inputs + witness) to /verif/replays/<prop>/<case>/
 func saveReplay(prop, tier string, r *CaseResult, v *Violation) string {
-	dir := filepath.Join(verifDir, "replays", prop, fmt.Sprintf("%s_s%d_i%d", tier, r.Seed, r.Index))
+	base := filepath.Join(verifDir, "replays")
+	if d := os.Getenv("VERIF_REPLAY_DIR"); d != "" {
+		base = d
+	}
+	dir := filepath.Join(base, prop, fmt.Sprintf("%s_s%d_i%d", tier, r.Seed, r.Index))
 	os.RemoveAll(dir)
 	os.MkdirAll(dir, 0755)
 	meta := map[string]interface{}{"prop": prop, "tier": tier, "seed": r.Seed, "index": r.Index, "witness": v, "status": r.Status, "err": r.Err}
